@@ -4,6 +4,7 @@ import itertools
 import random
 
 import apicheck as A
+import gen_stylemap as GS
 import htmlobs as HO
 from gen_docx import el
 
@@ -36,6 +37,69 @@ def on(sp):
     return sp is not None and sp not in ("false", "0")
 
 
+# ST_HighlightColor (eight of its values are camelCase) and strings that differ from a legal value only in case,
+# in surrounding white space or by a prefix / suffix: the colour of `highlight[color='...']` is compared exactly
+HL_COLORS = ["black", "blue", "cyan", "green", "magenta", "red", "yellow", "white", "darkBlue", "darkCyan", "darkGreen", "darkMagenta", "darkRed",
+             "darkYellow", "darkGray", "lightGray"]
+HL_ODD = ["None", "NONE", "auto", "Yellow", "RED", "x", "A b", "dark yellow", "#FFFF00", "it's", "a\\b", "\u00e9t\u00e9", "\u4e2d", "none ", "0", "false"]
+
+
+def hl_variant(rng, c):
+    """a string close to the colour c (c itself half of the time)"""
+    k = rng.random()
+    if k < 0.5 or not c:
+        return c
+    if k < 0.6:
+        return c.lower()
+    if k < 0.68:
+        return c.upper()
+    if k < 0.76:
+        return c.swapcase()
+    if k < 0.82:
+        return c[:1].upper() + c[1:]
+    if k < 0.88:
+        return c[:-1]
+    if k < 0.92:
+        return c + rng.choice(["x", "s", "1"])
+    if k < 0.96:
+        return rng.choice([" " + c, c + " "])
+    return c[:1].lower() + c[1:]
+
+
+def hl_enrich(rng, plist, mapped):
+    """highlight values from the whole value space (not only one-word lower-case colours) in the document, and an ORDERED list of
+    highlight mappings in the style map: colour-specific ones (spelled as in the document, or nearly so) and generic ones, in any order"""
+    pool = [rng.choice(HL_COLORS[8:] if rng.random() < 0.5 else HL_COLORS + HL_ODD) for _ in range(rng.choice([1, 2, 2, 3]))]
+    for props in plist:
+        if rng.random() < 0.7:
+            props["hl"] = hl_variant(rng, rng.choice(pool)) if rng.random() < 0.85 else rng.choice(HL_COLORS + HL_ODD)
+    tags = ["mark", "mark.a", "mark.b", "span.hl", "span[title='h']", "em", "strong", "code"]
+    rules = []
+    for _ in range(rng.choice([1, 1, 2, 2, 3, 4])):
+        k = rng.random()
+        if k < 0.25:
+            color = None
+        elif k < 0.85:
+            color = hl_variant(rng, rng.choice(pool))
+        else:
+            color = rng.choice(HL_COLORS + HL_ODD + ["", "none"])
+        rules.append([color, rng.choice(tags if rng.random() < 0.9 else ["", "!"])])
+    if "highlight" in mapped:
+        # the generic mapping of the older generator takes part as one more rule, at a random position
+        rules.insert(rng.randrange(len(rules) + 1), [None, mapped.pop("highlight")])
+    mapped["highlight-rules"] = rules
+
+
+def highlight_tag(hl, mapped):
+    """the first highlight mapping (in style-map order) that is generic or names exactly the run's colour; None if there is none"""
+    if "highlight-rules" in mapped:
+        for color, tag in mapped["highlight-rules"]:
+            if color is None or color == hl:
+                return tag
+        return None
+    return mapped.get("highlight")
+
+
 def expected_chain(props, mapped):
     """outermost first, for the default wrappers / the mapped tags (independent reading of the statement);
     a property mapped to the empty path (`b =>`) adds no element; mapped to `!` the run's text is dropped (None)"""
@@ -56,8 +120,8 @@ def expected_chain(props, mapped):
         active.append(mapped["all-caps"])
     if on(props["toggles"]["w:smallCaps"]) and "small-caps" in mapped:
         active.append(mapped["small-caps"])
-    if props["hl"] not in (None, "none", "") and "highlight" in mapped:
-        active.append(mapped["highlight"])
+    if props["hl"] not in (None, "none", "") and highlight_tag(props["hl"], mapped) is not None:
+        active.append(highlight_tag(props["hl"], mapped))
     if "!" in active:
         return None
     return [a for a in active if a != ""]
@@ -69,7 +133,13 @@ def make_case(rng, key, props_list, mapped):
         runs.append(el("w:r", [], [rpr(props, rng), el("w:t", [], [chr(0x41 + k)])]))
     parts = [{"name": "word/document.xml", "xml": el("w:document", [], [el("w:body", [], [el("w:p", [], runs)])])}]
     names = {"b": "b", "i": "i", "u": "u", "strike": "strike", "all-caps": "all-caps", "small-caps": "small-caps", "highlight": "highlight"}
-    sm = "\n".join("%s => %s" % (names[k], v) for k, v in mapped.items())
+    lines = []
+    for k, v in mapped.items():
+        if k == "highlight-rules":
+            lines.extend("highlight%s => %s" % ("" if color is None else "[color=%s]" % GS.print_string(color), tag) for color, tag in v)
+        else:
+            lines.append("%s => %s" % (names[k], v))
+    sm = "\n".join(lines)
     return {"parts": parts, "options": {"styleMap": sm} if sm else {}, "key": key, "props": props_list, "mapped": mapped, "noshrink": True, "features": []}
 
 
@@ -90,6 +160,60 @@ def chains_ok(case, r):
     return probs[:3]
 
 
+def plain_props(rng):
+    """no formatting at all: every property absent or spelled as switched off"""
+    return {"toggles": {t: rng.choice([None, None, "false", "0"]) for t in TOGGLES}, "u": rng.choice(["absent", "absent", "none", "false", "0"]),
+            "va": rng.choice([None, None, "baseline"]), "hl": rng.choice([None, None, "none", ""])}
+
+
+def vary_props(rng, props):
+    """the same formatting with one property switched: neighbours that share some wrappers and differ in others"""
+    p = dict(props, toggles=dict(props["toggles"]))
+    k = rng.choice(TOGGLES[:3] + ["u", "va"])
+    if k in TOGGLES:
+        p["toggles"][k] = rng.choice(["false", None]) if on(p["toggles"][k]) else rng.choice(["bare", "1"])
+    elif k == "u":
+        p["u"] = "none" if p["u"] not in ("absent", "bare", "none", "false", "0") else "single"
+    else:
+        p["va"] = rng.choice([v for v in (None, "superscript", "subscript") if v != p["va"]])
+    return p
+
+
+def make_text_case(rng, key, props_list, mapped, texts):
+    """like make_case, but run k holds texts[k] (possibly white space only, or a letter with spaces around it)"""
+    case = make_case(rng, key, props_list, mapped)
+    runs = case["parts"][0]["xml"][2][0][2][0][2]
+    for r, t in zip(runs, texts):
+        r[2][1] = el("w:t", [], [t])
+    del case["props"]
+    case["meta"] = {"props": props_list, "mapped": mapped, "texts": texts}
+    return case
+
+
+def sequence_ok(case, r):
+    """every character of the paragraph, in order, with the chain of inline elements around it: must be the characters of
+    the runs in order, each inside exactly the wrappers its OWN run's formatting says (white space included)"""
+    meta = case.get("meta") or case
+    texts = meta.get("texts") or [chr(0x41 + k) for k in range(len(meta["props"]))]
+    try:
+        nodes = HO.parse(r["value"])
+    except HO.Malformed as e:
+        return ["malformed %s" % e]
+    got = [(c, [name + "".join((".%s" % v) if k == "class" else "[%s='%s']" % (k, v) for k, v in attrs) for name, attrs in chain if name != "p"])
+           for c, chain in HO.char_chains(nodes, None)]
+    exp = []
+    for props, t in zip(meta["props"], texts):
+        ch = expected_chain(props, meta["mapped"])
+        if ch is not None:
+            exp.extend((c, ch) for c in t)
+    if got == exp:
+        return []
+    if [c for c, _ in got] != [c for c, _ in exp]:
+        return ["characters of the output %r are not the characters of the runs in order %r" % ("".join(c for c, _ in got), "".join(c for c, _ in exp))]
+    k = next(i for i in range(len(exp)) if got[i] != exp[i])
+    return ["character %d (%r) of the paragraph is enclosed in %r, the formatting of the run it belongs to says %r" % (k, exp[k][0], got[k][1], exp[k][1])]
+
+
 def project(r, case):
     return {"value": r["value"]}
 
@@ -103,6 +227,11 @@ def run(out, tier, seed, model_ok):
         props = {"toggles": {t: ("bare" if bits[i] else None) for i, t in enumerate(TOGGLES)}, "u": "single" if bits[5] else "absent",
                  "va": "superscript" if bits[6] else ("subscript" if bits[7] else None), "hl": "yellow" if bits[8] else None}
         cs.append(make_case(rng, "c11-sub-%s" % "".join(map(str, bits)), [props], {}))
+    # every legal highlight colour once: a mapping for exactly that colour, followed by a generic one, next to a run of another colour
+    for k, color in enumerate(HL_COLORS):
+        plain = {"toggles": {t: None for t in TOGGLES}, "u": "absent", "va": None}
+        plist = [dict(plain, hl=color), dict(plain, hl=HL_COLORS[(k + 5) % len(HL_COLORS)]), dict(plain, hl=color)]
+        cs.append(make_case(rng, "c11-hl-%s" % color, plist, {"highlight-rules": [[color, "mark.a"], [None, "mark"]]}))
     nex = len(cs)
     tags = ["span", "code", "mark", "u", "b", "del", "strong", "em", "span.bold", "span.italic", "span.x", "span[title='t']", "span[title='u']"]
     for i in range(common.deepen(2000 if tier == "quick" else 30000)):
@@ -111,13 +240,41 @@ def run(out, tier, seed, model_ok):
         plist = []
         for _ in range(n):
             plist.append(dict(plist[-1]) if plist and rng.random() < 0.4 else random_props(rng))
+        if rng.random() < 0.4:
+            hl_enrich(rng, plist, mapped)
         cs.append(make_case(rng, "c11-r%d-%d" % (seed, i), plist, mapped))
-    run_ = A.ApiRun(out, "C11", model_ok, project, observers=[chains_ok], name="wrappers")
+    run_ = A.ApiRun(out, "C11", model_ok, project, observers=[chains_ok, sequence_ok], name="wrappers")
     run_.run(cs, nontrivial=lambda c, r: any(expected_chain(p, c["mapped"]) for p in c["props"]))
+    # runs whose text is white space only (or has spaces around a letter) between / next to formatted runs: the formatting of
+    # the neighbours -- equal on both sides, equal in the outer wrapper only, switched off in the run itself -- must not reach it
+    ws = []
+    for i in range(common.deepen(700 if tier == "quick" else 10000)):
+        mapped = {k: rng.choice(tags if rng.random() < 0.85 else ["", "", "!"]) for k in ["b", "i", "u", "strike", "all-caps", "small-caps", "highlight"] if rng.random() < 0.3}
+        plist, texts = [], []
+        for k in range(rng.choice([2, 3, 3, 3, 4, 5])):
+            q = rng.random()
+            if len(plist) >= 2 and q < 0.35:
+                p = dict(plist[-2]) if rng.random() < 0.7 else vary_props(rng, plist[-2])
+            elif plist and q < 0.5:
+                p = dict(plist[-1]) if rng.random() < 0.5 else vary_props(rng, plist[-1])
+            elif q < 0.75:
+                p = plain_props(rng)
+            else:
+                p = random_props(rng)
+            plist.append(p)
+            letter = chr(0x41 + k)
+            texts.append(rng.choice([" ", " ", "  ", "\t", " \n", "\u00a0"]) if rng.random() < 0.35 else rng.choice(["%s", "%s", "%s ", " %s", "%s %s"]).replace("%s", letter))
+        ws.append(make_text_case(rng, "c11-ws%d-%d" % (seed, i), plist, mapped, texts))
+    run_ws = A.ApiRun(out, "C11", model_ok, project, observers=[sequence_ok], name="wrappers-text")
+    run_ws.run(ws, nontrivial=lambda c, r: any(expected_chain(p, c["meta"]["mapped"]) for p in c["meta"]["props"]))
     out.rule = ("paragraphs of 1-4 adjacent runs: all 2^9 on/off subsets of bold/italic/strike/caps/small-caps/underline/superscript|subscript/highlight (exhaustive, one "
                 "spelling) and random property sets with every toggle spelling (absent, bare, true, 1, false, 0), underline values, highlight none/empty, equal and different "
-                "neighbours, style maps overriding any subset of the seven property mappings; observation = for every run, the chain of inline elements enclosing its text, "
+                "neighbours, style maps overriding any subset of the seven property mappings; in 40% of the random cases highlight values from the whole value space (the 16 "
+                "ST_HighlightColor values incl. the camelCase ones, case / white-space / prefix variants, arbitrary strings) and an ordered list of colour-specific and generic "
+                "highlight mappings spelled as in the document or nearly so (first match wins, colours compared exactly); observation = for every run, the chain of inline elements enclosing its text, "
                 "compared with an independent reading of the statement and with the Lean model; non-trivial = some run has a wrapper")
+    out.rule += ("; plus paragraphs of 2-5 runs whose texts are white space only or a letter with spaces around it, with plain (absent / switched-off) runs between "
+                 "equally or partly equally formatted ones; observation there = the whole sequence (character, enclosing inline elements) of the paragraph in order")
     out.extra.update(exhaustive_part=nex)
     out.sample({"props": cs[nex]["props"], "mapped": cs[nex]["mapped"]})
     out.sample({"props": cs[-1]["props"], "mapped": cs[-1]["mapped"]})
@@ -125,4 +282,7 @@ def run(out, tier, seed, model_ok):
 
 def replay(out, payload, model_ok):
     case = payload["case"]
+    if "props" not in case and "texts" in (case.get("meta") or {}):
+        A.replay_case(out, "C11", model_ok, payload, project, [sequence_ok])
+        return
     A.replay_case(out, "C11", model_ok, payload, project, [chains_ok] if "props" in case else [])
